@@ -224,10 +224,30 @@ func runGSeq(r *Run, spec gSeqSpec, clk *Clock) *gSeqResult {
 	ps := r.T.S("prog.0")
 	m := res.Model
 	check := func(op gOp) bool {
+		// in half of the runs: the complete resource (every member the emulator reports, not only
+		// the ones the model follows) and content of every object the request does not name must
+		// be the same before and after it, whatever the request answers
+		var before map[string]string
+		if r.Index%2 == 0 && op.Kind != "CreateBucket" && op.Kind != "DeleteBucket" && op.Between == nil {
+			before = rawStateG(res.World, m)
+		}
 		resp := execG(res.World, op)
 		r.Hist(map[string]interface{}{"op": op.String(), "status": resp.Status, "meta": resp.Meta.String(), "trace": resp.Trace})
 		if r.Failed() {
 			return false
+		}
+		if before != nil {
+			for _, t := range gOpTargets(op) {
+				delete(before, t)
+			}
+			after := rawStateG(res.World, m)
+			for k, v := range before {
+				if a, ok := after[k]; ok && a != v {
+					r.Fail("other-object-changed", "", "%s (HTTP %d) changed an object it does not name: %s was %s and is now %s", op, resp.Status, k, v, a)
+					return false
+				}
+			}
+			r.Probe("gcs.other_objects_compared_complete")
 		}
 		if k, msg := m.step(op, resp); k != "" {
 			wit := ""
@@ -336,3 +356,14 @@ func sortedKeys(m map[string]bool) []string {
 }
 
 var _ = url.Values{}
+
+// gOpTargets: the objects ("bucket/name") a request may legitimately change.
+func gOpTargets(op gOp) []string {
+	switch op.Kind {
+	case "Upload":
+		return []string{op.Up.Bucket + "/" + op.Up.Name}
+	case "Copy":
+		return []string{op.DstB + "/" + op.DstN}
+	}
+	return []string{op.Bucket + "/" + op.Name}
+}
